@@ -81,3 +81,34 @@ Example py_iter_atom : py_iter_v (VI (IP 1%positive)) = None.                   
 Example py_try_first : py_try (Some CvIndexError) (@None Z) CvTypeError = Some CvIndexError.          Proof. reflexivity. Qed.
 Example py_diff_items : py_set_difference_items [1; 2; 3]%positive [IP 2%positive; IS [3]%positive] = [1; 3]%positive.
 Proof. reflexivity. Qed.
+
+(* ---- a frozenset whose members are items (RankedToFirstNPreferences: frozenset(ranking[:n])): carried as the list it is built from,
+   only used as a dictionary key.  Its wire key: the plain members in ascending order, then the member sets (each an ascending
+   list) in lexicographic order, duplicates dropped - equal frozensets get equal keys.  For plain members only this is the key of
+   the frozenset of candidates. *)
+Definition item_plains (l : list item) : list C := flat_map (fun i => match i with IP c => [c] | IS _ => [] end) l.
+Definition item_sets (l : list item) : list (list C) := flat_map (fun i => match i with IP _ => [] | IS s => [s] end) l.
+Fixpoint list_ceqb (a b : list C) : bool :=
+  match a, b with
+  | [], [] => true
+  | x :: a', y :: b' => Pos.eqb x y && list_ceqb a' b'
+  | _, _ => false
+  end.
+Fixpoint lex_ltb (a b : list C) : bool :=
+  match a, b with
+  | _, [] => false
+  | [], _ :: _ => true
+  | x :: a', y :: b' => Pos.ltb x y || (Pos.eqb x y && lex_ltb a' b')
+  end.
+Fixpoint insert_set (s : list C) (l : list (list C)) : list (list C) :=
+  match l with
+  | [] => [s]
+  | x :: t => if list_ceqb s x then l else if lex_ltb s x then s :: l else x :: insert_set s t
+  end.
+Definition canon_sets (l : list (list C)) : list (list C) := fold_left (fun acc s => insert_set s acc) l [].
+Definition py_key_itemset (l : list item) : sx := L (map kc (canon_set (item_plains l)) ++ map kset (canon_sets (item_sets l))).
+
+Example py_key_itemset_plain : py_key_itemset [IP 3; IP 1; IP 3]%positive = kset [1; 3]%positive.   Proof. reflexivity. Qed.
+Example py_key_itemset_mixed :
+  py_key_itemset [IS [2; 3]; IP 4; IS [1; 5]; IS [2; 3]; IP 1]%positive = L [kc 1%positive; kc 4%positive; kset [1; 5]%positive; kset [2; 3]%positive].
+Proof. reflexivity. Qed.
